@@ -16,11 +16,11 @@ F_Unary  == {[fam |-> "unary", op |-> op, lu |-> i, ldt |-> a, ls |-> s] : op \i
             \cup {[fam |-> "unary", op |-> op, lu |-> i, ldt |-> a, ls |-> s] : op \in UnOps \ {"invert"}, i \in SmallPool, a \in Dts, s \in {"s0", "s22"}}
             \cup {[fam |-> "unary", op |-> "invert", lu |-> IdxOf("1"), ldt |-> "b1", ls |-> s] : s \in {"s0", "s2", "s22"}}
 F_To     == {[fam |-> "to", lu |-> i, ru |-> j, ldt |-> "f8", ls |-> "s2"] : i \in 1..NPool, j \in 1..NPool}
-            \cup {[fam |-> "to", lu |-> i, ru |-> j, ldt |-> a, ls |-> s] : i \in SmallPool \cup {IdxOf("km")}, j \in SmallPool \cup {IdxOf("km")}, a \in Dts, s \in {"s0", "s22"}}
+            \cup {[fam |-> "to", lu |-> i, ru |-> j, ldt |-> a, ls |-> s] : i \in SmallPool \cup {IdxOf("km"), IdxOf("pc"), IdxOf("au")}, j \in SmallPool \cup {IdxOf("km"), IdxOf("pc"), IdxOf("au")}, a \in Dts, s \in {"s0", "s22"}}
 \* chains a -> b -> c against a -> c inside one dimension family
 F_Chain  == {[fam |-> "chain", lu |-> i, mu |-> j, ru |-> k, ldt |-> "f8", ls |-> "s2"] : i \in 1..NPool, j \in 1..NPool, k \in 1..NPool}
 NpArgKinds == {"arr", "nd1", "float"}
-F_Np     == {[fam |-> "np", f |-> f, lu |-> i, ru |-> i, rk |-> "none", ldt |-> a, ls |-> "s22"] : f \in Keep1 \cup Pred1 \cup Trans1, i \in SmallPool \cup {IdxOf("m2"), IdxOf("cm3")}, a \in Dts}
+F_Np     == {[fam |-> "np", f |-> f, lu |-> i, ru |-> i, rk |-> "none", ldt |-> a, ls |-> "s22"] : f \in Keep1 \cup Pred1 \cup Trans1, i \in SmallPool \cup {IdxOf("m2"), IdxOf("cm3")}, a \in Dts \cup {"u4"}}
             \cup {[fam |-> "np", f |-> f, lu |-> i, ru |-> j, rk |-> rk, ldt |-> a, ls |-> "s2"] :
                     f \in Keep2 \cup Pred2 \cup Trans2 \cup KeepSeq, i \in SmallPool, j \in SmallPool \cup {IdxOf("km")}, rk \in NpArgKinds, a \in {"f8", "f4", "i8"}}
             \cup {[fam |-> "np", f |-> f, lu |-> i, ru |-> j, rk |-> "out", ldt |-> "f8", ls |-> "s2"] : f \in {"add", "multiply", "sqrt", "maximum", "less"}, i \in SmallPool, j \in {IdxOf("s")}}
